@@ -39,6 +39,7 @@ def main():
             prop = s.split("-")[0]
             todo = claimed if all_checks else ([prop] if prop in claimed else [])
             hits = {}
+            errors = {}
             for c in todo:
                 rr = sh(os.path.join(VERIF, "check"), c, "--no-evidence", cwd=VERIF, env=dict(os.environ, TSG_REPO=REPO))
                 viol = [l for l in rr.stdout.splitlines() if l.startswith("VIOLATION")]
@@ -48,11 +49,13 @@ def main():
                     if l.startswith("VIOLATION"):
                         details.append(" | ".join(x.strip() for x in lines[i + 1:i + 4]))
                 if rr.returncode not in (0, 1) or (rr.returncode == 1 and not viol):
-                    hits[c] = {"exit": rr.returncode, "error": rr.stdout[-400:]}
+                    errors[c] = {"exit": rr.returncode, "error": rr.stdout[-400:]}      # a crashed check detects nothing
                 elif viol:
                     hits[c] = {"exit": rr.returncode, "violations": len(viol), "first": details[:3]}
             results[s] = {"detected_by": sorted(hits), "detail": hits, "checks_run": todo}
-            print(s, "->", sorted(hits) or "MISSED", "(ran %s)" % ",".join(todo))
+            if errors:
+                results[s]["check_errors"] = errors
+            print(s, "->", sorted(hits) or "MISSED", "(ran %s)" % ",".join(todo), ("CHECK ERRORS: %s" % sorted(errors)) if errors else "")
             for c, h in hits.items():
                 for d in h.get("first", [])[:2]:
                     print("     ", c, d[:260])
